@@ -1,6 +1,6 @@
 (* C14 — functions mean their body, are defined once; inconsistent bodies are rejected.  Property theorems only. *)
 From Coq Require Import List String NArith Arith Bool.
-From Spox Require Import Base IR Show Build Sem Plan Validate BuildFacts SemFacts FuncFacts CompilePres ScopeFacts EmitFacts FunDefFacts AdaptFacts ReqFacts CoverFacts FunCoverFacts.
+From Spox Require Import Base IR Show Build Sem Plan Validate BuildFacts SemFacts FuncFacts CompilePres ScopeFacts EmitFacts FunDefFacts AdaptFacts ReqFacts CoverFacts FunCoverFacts LegalFacts FunLegalFacts.
 Import ListNotations.
 
 (* The returned model has exactly one definition per used (domain, name): every function called from the main graph, from a
@@ -63,6 +63,23 @@ Proof. intros p r m i o H Hi Ho p' f Hf val dv opsem Hext av. apply build_checke
   assert (Ha : acyclic_b p' (f_bodyid f) = true) by (unfold check_plan in Hc; apply andb_prop in Hc; destruct Hc as [Hc _]; apply andb_prop in Hc; tauto).
   exact (plan_sem p' (f_bodyid f) Ha val dv opsem Hext _ Hc av). Qed.
 Print Assumptions C14_call_means_body.
+
+(* The same WITHOUT the validator, for legal bodies: the plan of every function body is proved well-formed from the build algorithm
+   (discovery, scope tree, placement, emission) at every depth of function nesting; the premise is a decidable statement about the
+   Python object graph of the body only (LegalFacts.legal_b), evaluated on every function of every generated program. *)
+Theorem C14_call_means_body_for_legal_bodies :
+  forall p r m inputs outputs, build_public p r = inl m ->
+  all_vars (r_inputs r) = Some inputs -> all_vars (r_outputs r) = Some outputs ->
+  exists args, (r_drop r = false -> args = map snd inputs) /\
+    let p' := with_main p (Some args) outputs in
+    forall f, In f (mfunctions m) -> legal_b p' (f_bodyid f) = true ->
+    forall (val : Type) (dv : val) (opsem : nat -> list (option val) -> list (clos val) -> list val),
+    (forall n ivs c1 c2, Forall2 (fun a b => forall av, a av = b av) c1 c2 -> opsem n ivs c1 = opsem n ivs c2) ->
+    forall av,
+    run_plan p' (f_bodyid f) val dv opsem (plan_of_graph p' (f_bodyid f) (MGraph [] (f_body f) [])) av =
+    map (meaning p' (f_bodyid f) val dv opsem (bindv val dv (gargsP p' (f_bodyid f)) av)) (gresP p' (f_bodyid f)).
+Proof. exact functions_mean_bodies_legal. Qed.
+Print Assumptions C14_call_means_body_for_legal_bodies.
 
 (* Every call has a definition, by construction (no validator): each function-call node emitted anywhere in the graph tree of the
    returned model - main graph or control-flow body at any depth - has a FunctionProto of its (domain, name): the loop step that
